@@ -17,6 +17,7 @@ func init() {
 		{"C01", "attachment-index-fields-swapped-both-sides", "C01.a", w, "offset += putUint64(w.msg[offset:], idx.LogTime)\n\toffset += putUint64(w.msg[offset:], idx.CreateTime)\n\toffset += putUint64(w.msg[offset:], idx.DataSize)", "offset += putUint64(w.msg[offset:], idx.CreateTime)\n\toffset += putUint64(w.msg[offset:], idx.LogTime)\n\toffset += putUint64(w.msg[offset:], idx.DataSize)", "layout of AttachmentIndex"},
 		{"C01", "binding-wrong-key", "C01.d", ux, "schema := it.schemas.Get(channel.SchemaID)", "schema := it.schemas.Get(channel.ID)", "schema of the yielded message"},
 		{"C01", "lexer-owned-token-buffer", "C01.c", lx, "\t\t\tp, err = makeSafe(recordLen)\n\t\t\tif err != nil {\n\t\t\t\treturn TokenError, nil, fmt.Errorf(\"failed to allocate %d bytes for %s token: %w\", recordLen, opcode, err)\n\t\t\t}", "\t\t\tif uint64(cap(l.uncompressedChunk)) < recordLen {\n\t\t\t\tl.uncompressedChunk, err = makeSafe(recordLen)\n\t\t\t\tif err != nil {\n\t\t\t\t\treturn TokenError, nil, err\n\t\t\t\t}\n\t\t\t}\n\t\t\tp = l.uncompressedChunk[:cap(l.uncompressedChunk)]", "returned token bytes"},
+		{"C01", "chunk-buffer-replaced", "C01.r", w, "\tw.compressed.Reset()\n\tw.compressedWriter.Reset(w.compressed)", "\tw.compressed = &bytes.Buffer{}\n\tw.compressedWriter.Reset(w.compressed)", "store to Writer.compressed"},
 		// C02
 		{"C02", "gate-ignores-channels", "C02.a", "go/mcap/mcap.go", "return len(i.Channels) > 0", "return true", "gate does not consult Info.Channels"},
 		{"C02", "attachment-offset-convention", "C02.d", "go/mcap/reader.go", "r.rs.Seek(int64(offset+9), io.SeekStart)", "r.rs.Seek(int64(offset+8), io.SeekStart)", "seek to index offset + 9"},
@@ -51,6 +52,7 @@ func init() {
 			}
 			return scan, nil
 `, "lexer chunk mode when the sequential iterator is returned"},
+		{"C02", "keep-needs-statistics", "C02.n", ix, "keep := len(idx.MessageIndexOffsets) == 0\n", "keep := len(idx.MessageIndexOffsets) == 0 && it.statistics != nil\n", "chunk index without message indexes"},
 		// C03
 		{"C03", "unstable-sort", "C03.a", ix, "sort.SliceStable(unreadMessageIndexes, func(i, j int) bool {\n\t\t\t\treturn unreadMessageIndexes[i].timestamp < unreadMessageIndexes[j].timestamp", "sort.Slice(unreadMessageIndexes, func(i, j int) bool {\n\t\t\t\treturn unreadMessageIndexes[i].timestamp < unreadMessageIndexes[j].timestamp", "sort of the message queue"}, // (S)
 		{"C03", "non-strict-comparator", "C03.b", ix, "return unreadMessageIndexes[i].timestamp > unreadMessageIndexes[j].timestamp", "return unreadMessageIndexes[i].timestamp >= unreadMessageIndexes[j].timestamp", "comparator"},
@@ -76,10 +78,12 @@ func init() {
 		// C07
 		{"C07", "crcreader-hashes-whole-buffer", "C07.d", "go/mcap/crc_reader.go", "r.crc.Write(p[:n])", "r.crc.Write(p)", "hash p[:n]"}, // (S)
 		{"C07", "expose-before-compare", "C07.a", lx, "\t\tcrc := crc32.ChecksumIEEE(l.uncompressedChunk[:uncompressedSize])\n", "\t\tl.setNoneDecoder(l.uncompressedChunk[:uncompressedSize])\n\t\tcrc := crc32.ChecksumIEEE(l.uncompressedChunk[:uncompressedSize])\n", "validated buffer becomes the active reader"},
+		{"C07", "validation-off-with-invalid-chunk-tokens", "C07.o", lx, "validateChunkCRCs:        validateChunkCRCs,", "validateChunkCRCs:        validateChunkCRCs && !emitInvalidChunks,", "validation switch"},
 		// C08
 		{"C08", "double-count", "C08.a", w, "\t\tw.currentChunkMessageCount++\n", "\t\tw.currentChunkMessageCount++\n\t\tw.Statistics.MessageCount++\n", "Statistics.MessageCount"},
 		{"C08", "info-omits-metadata-indexes", "C08.c", "go/mcap/reader.go", "\t\tMetadataIndexes:   it.metadataIndexes,\n", "", "Info.MetadataIndexes"},
 		{"C08", "unguarded-chunk-fold", "C08.b", w, "if w.Statistics.MessageCount == 0 && (c.MessageStartTime != 0 || c.MessageEndTime != 0) {", "if w.Statistics.MessageCount == 0 {", "fold of chunk times"},
+		{"C08", "flush-returns-early", "C08.t", w, "\t\t\terr := w.flushActiveChunk()\n\t\t\tif err != nil {\n\t\t\t\treturn err\n\t\t\t}\n\t\t}\n\t} else {", "\t\t\treturn w.flushActiveChunk()\n\t\t}\n\t} else {", "fold of the log time"},
 		// C09
 		{"C09", "raw-read-of-record", "C09.b", lx, "readLength, err = io.ReadFull(l.reader, record)", "readLength, err = l.reader.Read(record)", "with record"},
 		{"C09", "short-chunk-read-tolerated", "C09.f", lx, "\t\t_, err := io.ReadFull(l.reader, l.uncompressedChunk[:uncompressedSize])\n\t\tif err != nil {", "\t\t_, err := io.ReadFull(l.reader, l.uncompressedChunk[:uncompressedSize])\n\t\tif err != nil && !errors.Is(err, io.ErrUnexpectedEOF) {", "consumers of Lexer.uncompressedChunk"},
@@ -93,8 +97,10 @@ func init() {
 		// C12
 		{"C12", "arm-order-dependence", "C12.a", ix, "\t\t\t\tit.chunkIndexes = append(it.chunkIndexes, idx)\n\t\t\t}\n\t\tcase TokenStatistics:", "\t\t\t\tif it.statistics != nil {\n\t\t\t\t\tit.chunkIndexes = append(it.chunkIndexes, idx)\n\t\t\t\t}\n\t\t\t}\n\t\tcase TokenStatistics:", "TokenChunkIndex reads it.statistics"},
 		{"C12", "codec-set-mismatch", "C12.b", ix, "\tcase CompressionLZ4:\n\t\tif it.lz4Reader == nil {", "\tcase CompressionFormat(\"lz4hc\"):\n\t\tif it.lz4Reader == nil {", "compression sets"},
+		{"C12", "lexer-looks-at-chunk-times", "C12.t", lx, "\t_, offset, err := getUint64(l.buf, 0) // start\n\tif err != nil {", "\tstartTime, offset, err := getUint64(l.buf, 0)\n\tif err == nil && startTime == math.MaxUint64 {\n\t\terr = io.ErrUnexpectedEOF\n\t}\n\tif err != nil {", "message_start_time"},
 		// C13
 		{"C13", "map-order-in-chunk-index", "C13.a", w, "\tfor _, chanID := range w.channelIDs {\n\t\tif v, ok := idx.MessageIndexOffsets[chanID]; ok {\n\t\t\toffset += putUint16(w.msg[offset:], chanID)\n\t\t\toffset += putUint64(w.msg[offset:], v)\n\t\t}\n\t}", "\tfor chanID, v := range idx.MessageIndexOffsets {\n\t\toffset += putUint16(w.msg[offset:], chanID)\n\t\toffset += putUint64(w.msg[offset:], v)\n\t}", "range over map"},
+		{"C13", "header-argument-modified", "C13.m", w, "\t\tlibrary = header.Library\n\t}\n", "\t\tlibrary = header.Library\n\t}\n\theader.Library = library\n", "store to Header.Library"},
 		// C14
 		{"C14", "dropped-records-write-error", "C14.a", w, "\t_, err = w.w.Write(c.Records)\n\tif err != nil {\n\t\treturn err\n\t}", "\t_, _ = w.w.Write(c.Records)", "mcap.writeSizer.Write"}, // (S)
 		{"C14", "size-check-weakened", "C14.b", w, "if uint64(bytesWritten) != a.DataSize {", "if uint64(bytesWritten) < a.DataSize {", "a.DataSize"},
@@ -106,6 +112,7 @@ func init() {
 		// C17
 		{"C17", "feature-arm-wrong-option", "C17.a", "go/conformance/test-write-conformance/main.go", "\t\tcase UseChunkIndex:\n\t\t\toptions.SkipChunkIndex = false", "\t\tcase UseChunkIndex:\n\t\t\toptions.SkipMetadataIndex = false", "feature chx"},
 		{"C17", "input-field-misrouted", "C17.b", "go/conformance/test-write-conformance/main.go", "\t\t\tmessage.PublishTime = publishTime", "\t\t\tmessage.LogTime = publishTime", "Message field publish_time"},
+		{"C17", "opcode-printed-by-name", "C17.f", "go/conformance/test-read-conformance/main.go", "\tcase \"OpCode\":\n\t\tv = fmt.Sprintf(\"\\\"%d\\\"\", x.Value)", "\tcase \"OpCode\":\n\t\tv = fmt.Sprintf(\"\\\"%v\\\"\", x.Value)", "applied to the field value"},
 		// C18
 		{"C18", "log-fatal", "C18.a", "go/ros/bag2mcap.go", "\t\t\treturn errors.New(\"not a bag\")", "\t\t\tpanic(\"not a bag\")", "panic call"},
 		{"C18", "field-length-guard-removed", "C18.b", "go/ros/bag2mcap.go", "\t\tif uint64(fieldlen) > uint64(len(header)-offset) {\n\t\t\treturn nil, fmt.Errorf(\"field length %d exceeds header\", fieldlen)\n\t\t}\n\t\tfield := header[offset : offset+int(fieldlen)]", "\t\tfield := header[offset : offset+int(fieldlen)]", "ros.extractHeaderValue"},
@@ -167,6 +174,8 @@ func init() {
 
 `, "Type.IsRecord built per field"},
 		// C20
+		{"C20", "attachment-sized-scratch", "C20.a", w, "\tw.ensureSized(bufferLen)\n", "\tw.ensureSized(bufferLen + int(a.DataSize))\n", "buffer size requested"},
+		{"C20", "slot-reuse-needs-capacity", "C20.c", ix, "\t\tif chunkSlot.unreadMessages == 0 {\n", "\t\tif chunkSlot.unreadMessages == 0 && cap(chunkSlot.buf) > 0 {\n", "a slot is reusable"},
 		{"C20", "decrement-removed", "C20.b", ix, "\t\tchunkSlot.unreadMessages--\n", "", "unreadMessages--"}, // (S)
 		{"C20", "attachment-readall", "C20.a", w, "bytesWritten, err := io.Copy(crcWriter, a.Data)", "all, err := io.ReadAll(a.Data)\n\tif err != nil {\n\t\treturn err\n\t}\n\tn, err := crcWriter.Write(all)\n\tbytesWritten := int64(n)", "attachment source is only streamed"},
 	} {
